@@ -13,7 +13,7 @@ from checks.C14 import gen_filter_value, op
 
 PROPERTY = 'C10'
 LEVEL = 'exploration'
-RULE = ('seeded random stores of 1-25 recordings over categories Op/OpX/Op_x/Op_x_y/A with JSON-native metadata (absent keys, '
+RULE = ('seeded random stores of 1-25 recordings over categories Op/OpX/Op_x/Op_x_y/A/Job[v2]/A*/Q?x (prefixes of each other, underscores, shell-pattern metacharacters; the directory name of the file cassette has such characters in every second store) with JSON-native metadata (absent keys, '
         'incomplete flag True/False/absent) saved identically on memory, file, S3 prefix "" / p / pp; per store ~30 queries '
         '(category x filter x limit in {None,1,2,n-1,n,n+1,1000} x ordered/random) through iter_recording_ids, '
         'iter_recordings_metadata and find_matching_recording_ids. A case = one query on one store; distinct = hash of '
@@ -22,7 +22,7 @@ ASSUMPTIONS = ['limit=0 not judged (in-memory/file read it as "no limit", S3 as 
                'metadata is JSON-native so that the S3 content filter (JSON view) and the other cassettes see the same values',
                'reference matcher as in C14; unspecified cases may or may not be listed']
 
-CATS = ['Op', 'OpX', 'Op_x', 'Op_x_y', 'A']
+CATS = ['Op', 'OpX', 'Op_x', 'Op_x_y', 'A', 'Job[v2]', 'A*', 'Q?x']
 CONFIGS = [('memory', ''), ('file', ''), ('s3', ''), ('s3', 'p'), ('s3', 'pp')]
 INC = '_tape_recorder_incomplete_recording'
 
@@ -74,7 +74,7 @@ def run_case(ctx, case_seed):
             queries.append((cat, flt, limit, rng.random() < 0.3, rng.choice(['ids', 'ids', 'metadata', 'lookup', 'lookup_all'])))
     per_cassette_tokens = {}
     for kind, prefix in CONFIGS:
-        with open_box(kind, prefix=prefix) as box:
+        with open_box(kind, prefix=prefix, hostile_dir=(case_seed % 2 == 0)) as box:
             saved = []
             reader = box.reader()
             hrng = random.Random(case_seed + 77)
